@@ -171,7 +171,7 @@ def build_runner(repo, timeout=2400):
         shutil.copy(os.path.join(CACHE, "replay-main", "Cargo.lock"), os.path.join(rdir, "Cargo.lock"))
     os.makedirs(os.path.join(rdir, "src"), exist_ok=True)
     with open(os.path.join(rdir, "Cargo.toml"), "w") as f:
-        f.write('[package]\nname = "vreplay"\nversion = "0.0.0"\nedition = "2021"\n\n[dependencies]\nengeom = { path = "%s" }\n\n[profile.dev]\nopt-level = 1\n\n[workspace]\n' % os.path.realpath(repo))
+        f.write('[package]\nname = "vreplay_%s"\nversion = "0.0.0"\nedition = "2021"\n\n[dependencies]\nengeom = { path = "%s" }\n\n[profile.dev]\nopt-level = 1\n\n[workspace]\n' % (tag, os.path.realpath(repo)))
     mainp = os.path.join(rdir, "src", "main.rs")
     if not os.path.exists(mainp) or open(mainp).read() != RUNNER_MAIN:
         with open(mainp, "w") as f:
@@ -192,7 +192,8 @@ def build_runner(repo, timeout=2400):
     if b.returncode != 0:
         errs = [l for l in b.stderr.splitlines() if l.startswith("error")]
         return None, "native runner build failed: " + ("; ".join(errs[:4]) or b.stderr[-800:])
-    return os.path.join(env["CARGO_TARGET_DIR"], "debug", "vreplay"), "ok"
+    # one binary per checkout (vreplay_<tag>): parallel checks on different trees share the dependency build only
+    return os.path.join(env["CARGO_TARGET_DIR"], "debug", "vreplay_" + tag), "ok"
 
 
 def native_replay(repo, name, vals, timeout=2400):
